@@ -1,5 +1,6 @@
 import CssVerif.Lemmas.Profiles
 import CssVerif.Lemmas.MacroRank
+import CssVerif.Lemmas.ProfilesSpec
 import CssVerif.Gen.C14Profiles
 /-!
 # C14 — the profile registry's verdicts depend on its contents, not its history
@@ -117,6 +118,37 @@ theorem contents_determine (cfg : Cfg) (accepts : CVal → Str → Bool) (r₁ r
   simp only [obs, Obs.mk.injEq] at ho'
   exact ⟨ho'.1, ho'.2.2.1, fun n v => validate_obs accepts r₁ r₂ ho n v,
     fun n v ps => validateWithProfile_obs accepts r₁ r₂ ho n v ps, fun ps => propertiesByProfile_obs r₁ r₂ ho ps⟩
+
+/-- **the answers as explicit functions of the contents**: a registry that satisfies the invariant is, for every
+query, the registry `specReg cfg (scontents r) r.default` computed from its contents and `defaultProfiles` alone
+(`Model/ProfilesSpec.lean`: environment = base macros updated with the entries' macros in order; compiled table =
+every raw table expanded under it) — `profiles`, `knownNames`, the effective default profiles, `validate`,
+`validateWithProfile` (any `profiles` argument), `propertiesByProfile` -/
+theorem answers_from_contents (cfg : Cfg) (accepts : CVal → Str → Bool) (r : Reg) (hinv : Inv cfg r) :
+    r.names = (specReg cfg (scontents r) r.default).names ∧
+    r.known = (specReg cfg (scontents r) r.default).known ∧
+    getDefault r = getDefault (specReg cfg (scontents r) r.default) ∧
+    (∀ n v, validate accepts r n v = validate accepts (specReg cfg (scontents r) r.default) n v) ∧
+    (∀ n v ps, validateWithProfile accepts r n v ps
+      = validateWithProfile accepts (specReg cfg (scontents r) r.default) n v ps) ∧
+    (∀ ps, propertiesByProfile r ps = propertiesByProfile (specReg cfg (scontents r) r.default) ps) := by
+  have ho := obs_spec cfg r hinv
+  have ho' := ho
+  simp only [obs, Obs.mk.injEq] at ho'
+  refine ⟨ho'.1, ho'.2.2.1, ?_, fun n v => validate_obs accepts _ _ ho n v,
+    fun n v ps => validateWithProfile_obs accepts _ _ ho n v ps, fun ps => propertiesByProfile_obs _ _ ho ps⟩
+  simp only [getDefault, specReg, scontents_names]
+
+/-- for everything reachable from `Profiles()`, whatever the history -/
+theorem reachable_answers_from_contents (cfg : Cfg) (accepts : CVal → Str → Bool) (builtins : List ProfileDef)
+    (ops : List Op) (n v : Str) (ps : Option (List Str)) :
+    let r := run cfg (init cfg builtins).1 ops
+    validate accepts r n v = validate accepts (specReg cfg (scontents r) r.default) n v ∧
+    validateWithProfile accepts r n v ps = validateWithProfile accepts (specReg cfg (scontents r) r.default) n v ps ∧
+    r.known = (specReg cfg (scontents r) r.default).known := by
+  intro r
+  obtain ⟨_, hk, _, hv, hw, _⟩ := answers_from_contents cfg accepts r (reachable_inv cfg builtins ops)
+  exact ⟨hv n v, hw n v ps, hk⟩
 
 /-- in particular for everything reachable from `Profiles()`: two histories that end with the same contents and
 `defaultProfiles` end with the same verdicts -/
